@@ -184,6 +184,7 @@ pub struct WorldSys {
 	pub mines_done: u32,
 	pub jumped: bool,
 	pub needs_bury: bool,
+	pub jump_left: u32,
 	pub tampered: bool,
 	pub last_raa: std::collections::BTreeMap<(usize, usize), lightning::ln::msgs::RevokeAndACK>,
 	pub crash_nodes: Vec<usize>,
@@ -216,6 +217,7 @@ impl WorldSys {
 			mines_done: 0,
 			jumped: false,
 			needs_bury: false,
+			jump_left: u32::MAX,
 			tampered: false,
 			last_raa: Default::default(),
 			settle_on_chain: false,
@@ -267,14 +269,17 @@ impl WorldSys {
 		if v.is_empty() && self.finished && self.settle_on_chain {
 			// on-chain settling: confirm whatever is in the mempool, bury it by the anti-reorg depth, let
 			// every timelock expire once, and repeat until nothing is left to confirm
-			if !self.w.chain.mempool.is_empty() && self.mines_done < 24 {
+			if !self.w.chain.minable(&|_| 0).is_empty() && self.mines_done < 40 {
 				v.push(Action::Mine);
 			} else if self.needs_bury {
 				v.push(Action::MineEmpty(7));
 			} else if !self.jumped {
 				// past every HTLC expiry: 100 blocks of CLTV delta per hop in the harness routes
 				let hops = self.ops.iter().map(|o| if let Op::Send { hops, .. } = o { hops.len() } else { 1 }).max().unwrap_or(1) as u32;
-				v.push(Action::MineEmpty(100 * hops + 60));
+				if self.jump_left == u32::MAX {
+					self.jump_left = 100 * hops + 60;
+				}
+				v.push(Action::MineEmpty(self.jump_left.max(101)));
 			}
 		}
 		v
@@ -466,13 +471,26 @@ impl WorldSys {
 				self.w.sync_all();
 			},
 			Action::MineEmpty(k) => {
-				if *k > 100 {
-					self.jumped = true;
-					self.mines_done = 0;
+				// empty blocks one at a time; stop as soon as somebody has something to confirm so that
+				// transactions confirm promptly (the miner is not starving anybody)
+				let mut done = 0;
+				while done < *k {
+					self.w.mine_empty(1);
+					self.w.sync_all();
+					done += 1;
+					if !self.w.chain.minable(&|_| 0).is_empty() {
+						break;
+					}
 				}
-				self.needs_bury = false;
-				self.w.mine_empty(*k);
-				self.w.sync_all();
+				if *k > 100 {
+					self.jump_left = self.jump_left.saturating_sub(done);
+					if self.jump_left == 0 {
+						self.jumped = true;
+					}
+					self.mines_done = 0;
+				} else if done == *k {
+					self.needs_bury = false;
+				}
 			},
 			Action::Crash(n, choice) => {
 				self.do_crash(*n, *choice, None)?;
